@@ -395,8 +395,13 @@ class ServerPeer:
             for off, kind, data in self.script[start:]:
                 self.sock.deliver(t + off, kind, data)
         elif self.hs.startswith("status:"):
-            code = int(self.hs.split(":")[1])
-            self.sock.deliver(t, "data", ("HTTP/1.1 %d Nope\r\nContent-Length: 0\r\n\r\n" % code).encode())
+            # status:<code>[:noreason|:body] - a rejected handshake; optionally a status line without reason phrase, or with a body
+            parts = self.hs.split(":")
+            code = int(parts[1])
+            how = parts[2] if len(parts) > 2 else ""
+            line = "HTTP/1.1 %d" % code if how == "noreason" else "HTTP/1.1 %d Nope" % code
+            body = b"rejected: try later\n" if how == "body" else b""
+            self.sock.deliver(t, "data", ("%s\r\nContent-Length: %d\r\n\r\n" % (line, len(body))).encode() + body)
             self.sock.deliver(t, "eof")
         elif self.hs.startswith("short-body:"):
             # a rejection whose announced Content-Length exceeds the body actually delivered before the server closes (or goes silent)
